@@ -1,6 +1,6 @@
 // fakeplugin is a scripted ThriftRW plugin used by checks C16 and C17. Invoked
-// as thriftrw-plugin-<name> it loads $FAKEPLUGIN_SCRIPT_DIR/<name>.json (an
-// fplab.Script), serves the framed + enveloped + multiplexed plugin protocol on
+// as thriftrw-plugin-<name> [--instance=<i>] it loads
+// $FAKEPLUGIN_SCRIPT_DIR/<name>.json or <name>@<i>.json (an fplab.Script), serves the framed + enveloped + multiplexed plugin protocol on
 // stdin/stdout with verif/internal/refcodec (never thriftrw's codec), and
 // appends JSON events to $FAKEPLUGIN_LOG (shared, O_APPEND: the line order is
 // the global order of events). It never writes to stderr.
@@ -23,7 +23,8 @@ import (
 )
 
 var (
-	self    string
+	self    string // plugin name: what a conforming handshake reports
+	id      string // fplab.Plugin.ID: name, or name@instance with --instance=<instance>
 	logFile *os.File
 	evN     int
 	script  fplab.Script
@@ -34,7 +35,7 @@ func logEv(e fplab.Event) {
 		return
 	}
 	evN++
-	e.Plugin, e.Pid, e.N, e.T = self, os.Getpid(), evN, time.Now().UnixNano()
+	e.Plugin, e.Pid, e.N, e.T = id, os.Getpid(), evN, time.Now().UnixNano()
 	b, _ := json.Marshal(e)
 	logFile.Write(append(b, '\n')) // one write(2) on an O_APPEND descriptor
 }
@@ -63,6 +64,12 @@ func main() {
 		}
 	}()
 	self = strings.TrimPrefix(filepath.Base(os.Args[0]), "thriftrw-plugin-")
+	id = self
+	for _, a := range os.Args[1:] {
+		if strings.HasPrefix(a, "--instance=") {
+			id = self + "@" + strings.TrimPrefix(a, "--instance=")
+		}
+	}
 	if p := os.Getenv("FAKEPLUGIN_LOG"); p != "" {
 		f, err := os.OpenFile(p, os.O_WRONLY|os.O_APPEND|os.O_CREATE, 0o644)
 		if err == nil {
@@ -70,7 +77,7 @@ func main() {
 		}
 	}
 	logEv(fplab.Event{Ev: fplab.EvStart})
-	b, err := os.ReadFile(filepath.Join(os.Getenv("FAKEPLUGIN_SCRIPT_DIR"), self+".json"))
+	b, err := os.ReadFile(filepath.Join(os.Getenv("FAKEPLUGIN_SCRIPT_DIR"), id+".json"))
 	if err != nil {
 		fatal("script: %v", err)
 	}
